@@ -1,10 +1,116 @@
 import Driver.Common
+import RxModel.Conn
 open Lean Drv
 
 namespace DrvConn
+open Conn
 
-def handle (op : String) (_j : Json) : Except String Json := do
+def notifOfJson (j : Json) : Except String (Notif Val) := do
+  match j with
+  | .arr #[.str "N", v] => pure (.next (← valOfJson v))
+  | .arr #[.str "E", .str e] => pure (.error e)
+  | .arr #[.str "C"] => pure .completed
+  | _ => throw s!"bad notification {j.compress}"
+
+def notifToJson : Notif Val → Json
+  | .next v => Json.arr #[.str "N", valToJson v]
+  | .error e => Json.arr #[.str "E", .str e]
+  | .completed => Json.arr #[.str "C"]
+
+def msgsOfJson (js : List Json) : Except String (List (Nat × Notif Val)) :=
+  js.mapM fun j =>
+    match j with
+    | .arr #[t, n] => do pure ((← t.getNat?), (← notifOfJson n))
+    | _ => throw "bad message"
+
+def opOfJson (j : Json) : Except String (Nat × Op) := do
+  match j with
+  | .arr #[t, .arr #[.str "sub", i]] => pure ((← t.getNat?), .sub (← i.getNat?))
+  | .arr #[t, .arr #[.str "unsub", i]] => pure ((← t.getNat?), .unsub (← i.getNat?))
+  | .arr #[t, .arr #[.str "connect"]] => pure ((← t.getNat?), .connect)
+  | .arr #[t, .arr #[.str "disconnect", k]] => pure ((← t.getNat?), .disconnect (← k.getNat?))
+  | _ => throw s!"bad op {j.compress}"
+
+def natJ (n : Nat) : Json := .num (JsonNumber.fromNat n)
+
+def subjOfJson (j : Json) : Except String (Subj Val) := do
+  let kind ← getStr j "subject"
+  match kind with
+  | "plain" => pure {}
+  | "behavior" => pure { isBehavior := true, value := some (← getVal j "init") }
+  | "replay" =>
+    let buf := match j.getObjVal? "buf" with
+      | .ok (.num n) => some n.mantissa.toNat
+      | _ => none
+    pure { isReplay := true, bufSize := buf }
+  | _ => throw s!"unknown subject kind {kind}"
+
+def worldOfJson (j : Json) : Except String (World Val) := do
+  let subj ← subjOfJson j
+  let msgs ← msgsOfJson (← getArr j "msgs")
+  let hot ← getBool j "hot"
+  let wrapS ← getStr j "wrap"
+  let wrap ← match wrapS with
+    | "raw" => pure Wrap.raw
+    | "refcount" => pure Wrap.refCount
+    | "auto" => do pure (Wrap.autoConnect (← getNat j "n"))
+    | _ => throw s!"unknown wrap {wrapS}"
+  pure { subj := subj, wrap := wrap, coldMsgs := if hot then [] else msgs, hot := if hot then some msgs else none }
+
+def timedToJson (l : List (Nat × Notif Val)) : Json :=
+  Json.arr (l.map fun (t, n) => Json.arr #[natJ t, notifToJson n]).toArray
+
+def logToJson (l : List (Nat × Nat × Option Nat)) : Json :=
+  Json.arr (l.map fun (_, s, u) => Json.arr #[natJ s, match u with | some x => natJ x | none => .null]).toArray
+
+def subscribersOf (ops : List (Nat × Op)) : List Nat :=
+  (ops.filterMap fun (_, o) => match o with | .sub i => some i | _ => none).eraseDups
+
+/-- `conn_run`: one shared multicast observable, a history of calls -/
+def connRun (j : Json) : Except String Json := do
+  let w ← worldOfJson j
+  let ops ← (← getArr j "ops").mapM opOfJson
+  let horizon ← getNat j "horizon"
+  let r := w.run ops horizon
+  let outs := (subscribersOf ops).map fun i => (toString i, timedToJson (r.outputsOf i))
+  pure (Json.mkObj [("out", Json.mkObj outs), ("src", logToJson r.srcLog)])
+
+/-- merge of the inner subscriptions of one outer subscriber (`rx.merge(c, c)`): nexts pass, the
+first error ends it, completion when all inner ones completed -/
+def mergeOut (k : Nat) : Nat → Bool → List (Nat × Nat × Notif Val) → List (Nat × Notif Val)
+  | _, true, _ => []
+  | _, _, [] => []
+  | done, false, (_, t, n) :: rest =>
+    match n with
+    | .next v => (t, .next v) :: mergeOut k done false rest
+    | .error e => [(t, .error e)]
+    | .completed => if done + 1 = k then [(t, .completed)] else mergeOut k (done + 1) false rest
+
+/-- `mcast_run`: `multicast(subject_factory, mapper)` (= `publish(mapper)`, `replay(mapper=…)`,
+`publish_value(v, mapper)`): every outer subscription gets a private connectable, subscribes
+`mapper(connectable)` (`k` inner subscriptions) and then connects it. -/
+def mcastRun (j : Json) : Except String Json := do
+  let w ← worldOfJson j
+  let ops ← (← getArr j "ops").mapM opOfJson
+  let horizon ← getNat j "horizon"
+  let k ← getNat j "inner"
+  let subsL := ops.filterMap fun (t, o) => match o with | .sub i => some (t, i) | _ => none
+  let res := subsL.map fun (t, i) =>
+    let tu : Option Nat := (ops.find? fun (p : Nat × Op) => p.2 == Op.unsub i).map (fun (p : Nat × Op) => p.1)
+    let inner := (List.range k).map fun a => (t, Op.sub a)
+    let stop := match tu with
+      | some u => (List.range k).map (fun a => (u, Op.unsub a)) ++ [(u, Op.disconnect 0)]
+      | none => []
+    let r := w.run (inner ++ [(t, Op.connect)] ++ stop) horizon
+    (i, mergeOut k 0 false r.out, r.srcLog)
+  let outs := res.map fun (i, o, _) => (toString i, timedToJson o)
+  let logs := res.foldl (fun acc (_, _, l) => acc ++ l) []
+  pure (Json.mkObj [("out", Json.mkObj outs), ("src", logToJson logs)])
+
+def handle (op : String) (j : Json) : Except String Json := do
   match op with
+  | "conn_run" => connRun j
+  | "mcast_run" => mcastRun j
   | _ => throw s!"unknown op {op}"
 
 end DrvConn
